@@ -234,7 +234,22 @@ def run_cli_tls(case, model):
         hits.append(hit('c08.client-uses-cleartext-after-handshake',
                         'a reply received in clear text before the handshake was used by the client after it',
                         observed=list(got), expected=list(want)))
-    return None, hits, ['inject=%d' % len(inj), 'split' if case['split'] else 'whole']
+    # ---- the client model (Model/Client.lean: run / starttls / run): the replies the four calls hold, and what is left to read
+    from harness.core import hx, hxl
+    mismatch = None
+    m = model.ask('client tls 0 banner,ehlo - %s %s ehlo' % (hxl(segs), hxl([tlsreply])))
+    if got[0] == '250':
+        mf = m.split(' | ')[0]
+        mlast = mf.split(';')[-1].split(':') if mf != '-' else None
+        mview = None
+        if mlast:
+            mview = (bytes.fromhex(mlast[1]).decode(), bytes.fromhex(mlast[2]).decode('utf-8').split('\r\n')[0], len(mf.split(';')))
+        iview = (e2.code, e2.message, 4)
+        mrest = dict(x.split('=', 1) for x in m.split(' | ')[1].split(' ')).get('rest')
+        irest = (c.io.recv_buffer + outer['tls_sock'].unread()).hex() or '-'
+        if mview != iview or mrest != irest:
+            mismatch = {'op': 'client tls', 'impl': [iview, irest], 'model': [mview, mrest]}
+    return mismatch, hits, ['inject=%d' % len(inj), 'split' if case['split'] else 'whole'] + (['client-model-compared'] if got[0] == '250' else [])
 
 
 def run_real_tls(case, model):
